@@ -128,6 +128,10 @@ func (n *rnode) encode(target *int, dev int, applied *string) []byte {
 			*applied = "integer-leading-zero"
 			z := append([]byte{0}, s...)
 			return append(lenPrefix(0x80, len(z), false), z...)
+		case dev == 11 && len(s) == 0:
+			// the empty string written as the empty list (both read as "nothing" by lenient decoders)
+			*applied = "empty-string-as-empty-list"
+			return []byte{0xc0}
 		case dev == 13 && len(s) == 0:
 			// the integer zero written as the byte 0x00 instead of the empty string 0x80
 			*applied = "zero-as-byte-00"
